@@ -148,7 +148,7 @@ func runCheck(verifDir, prop, tier string, seed int) int {
 	if ov, err := overlayFiles(verifDir); err == nil {
 		writeOverlayJSON(verifDir, ov)
 	}
-	resDir := filepath.Join(verifDir, "out", "results")
+	resDir := filepath.Join(scratchDir(verifDir), "out", "results")
 	os.MkdirAll(resDir, 0o755)
 	results := make([]*HarnessResult, len(specs))
 	var wg sync.WaitGroup
@@ -180,7 +180,8 @@ func runCheck(verifDir, prop, tier string, seed int) int {
 				return
 			}
 			r = HarnessResult{Spec: sp}
-			r.Inconcl = append(r.Inconcl, fmt.Sprintf("harness process failed (%v): %s", err, tail(string(ob), 800)))
+			os.WriteFile(out+".log", ob, 0o644)
+			r.Inconcl = append(r.Inconcl, fmt.Sprintf("harness process failed (%v): %s", err, tail(string(ob), 300)))
 			results[i] = &r
 		}(i)
 	}
@@ -342,8 +343,8 @@ func runCheck(verifDir, prop, tier string, seed int) int {
 		"wall_s":      time.Since(t0).Seconds(), "violations": violations,
 	}
 	eb, _ := json.MarshalIndent(ev, "", " ")
-	os.MkdirAll(filepath.Join(verifDir, "evidence"), 0o755)
-	os.WriteFile(filepath.Join(verifDir, "evidence", prop+".json"), eb, 0o644)
+	os.MkdirAll(filepath.Join(scratchDir(verifDir), "evidence"), 0o755)
+	os.WriteFile(filepath.Join(scratchDir(verifDir), "evidence", prop+".json"), eb, 0o644)
 	fmt.Printf("property=%s tier=%s harnesses=%d obligations=%d discharged=%d violations=%d inconclusive=%d queries=%d solver_s=%.1f wall_s=%.1f\n",
 		prop, tier, len(specs), obls, discharged, violations, len(inconcl), queries, solverS, time.Since(t0).Seconds())
 	return exit
@@ -433,7 +434,7 @@ func writeReplay(verifDir, prop string, spec HarnessSpec, ob *Obligation) string
 	rf := ReplayFile{Property: prop, Harness: spec, Obligation: ob.ID, Kind: ob.Kind, Site: ob.Site, Note: ob.Note, Vars: ob.Model}
 	b, _ := json.MarshalIndent(rf, "", " ")
 	h := sha256.Sum256(b)
-	dir := filepath.Join(verifDir, "replays")
+	dir := filepath.Join(scratchDir(verifDir), "replays")
 	os.MkdirAll(dir, 0o755)
 	p := filepath.Join(dir, fmt.Sprintf("%s-%s.json", prop, hex.EncodeToString(h[:6])))
 	os.WriteFile(p, b, 0o644)
